@@ -456,6 +456,11 @@ class EvalFx(Case):
             yield {"v": v}
 
 
+def OrderedDictLike(pairs):
+    """statistics as a list of [name, value] pairs (JSON-able, order kept)"""
+    return [[k, v] for k, v in pairs]
+
+
 class FxGrammar(Case):
     """bounded: the pyparsing grammar (built at run time from combinators) against ordinary
     arithmetic - all expressions up to the given depth, and histories with failing parses between"""
@@ -517,7 +522,11 @@ class FxGrammar(Case):
         def one(text, value, history):
             for h in history:
                 try:
-                    mod.eval_fx(h, dict(self.STATS))
+                    if isinstance(h, (list, tuple)):
+                        # an earlier evaluation of an expression on OTHER statistics (given as [text, stats])
+                        mod.eval_fx(h[0], dict(h[1]))
+                    else:
+                        mod.eval_fx(h, dict(self.STATS))
                 except Exception:  # noqa: BLE001, S110
                     pass
             try:
@@ -531,6 +540,19 @@ class FxGrammar(Case):
         for text, value in ex:
             hist = [rng.choice(bad_inputs), rng.choice(ex)[0]] if rng.random() < 0.5 else [rng.choice(bad_inputs)]
             yield ("expr", "grammar", {"text": text, "value": value, "history": hist}, (lambda t=text, v=value, h=hist: one(t, v, h)))
+        # the same expression evaluated before on other statistics: the same numbers under other names, the same
+        # names in another order, one statistic changed - the value depends on the statistics handed over now
+        S0 = self.STATS
+        others = [
+            OrderedDictLike([("min", S0["min"]), ("max", S0["max"]), ("std", S0["mean"]), ("mean", S0["std"])]),
+            OrderedDictLike([("std", S0["std"]), ("mean", S0["mean"]), ("max", S0["max"]), ("min", S0["min"])]),
+            OrderedDictLike([("min", S0["min"]), ("max", S0["max"]), ("mean", S0["mean"] + 1), ("std", S0["std"])]),
+            OrderedDictLike([("max", S0["min"]), ("min", S0["max"]), ("mean", S0["mean"]), ("std", S0["std"])]),
+        ]
+        for text, value in (("mean + 2 * std", S0["mean"] + 2 * S0["std"]), ("( max - min ) / 2", (S0["max"] - S0["min"]) / 2), ("mean", S0["mean"]), ("min - std", S0["min"] - S0["std"])):
+            for o in others:
+                hist = [[text, list(o)]]
+                yield ("expr", "grammar", {"text": text, "value": value, "history": hist}, (lambda t=text, v=value, h=hist: one(t, v, h)))
         # every spelling of a number that Python's float() reads (what QcVariableConfig validates tokens with):
         # bare trailing point, exponent forms, leading zeros - alone and inside each kind of expression
         S = self.STATS
@@ -544,7 +566,10 @@ class FxGrammar(Case):
         mod = replay.real_module(self.module)
         for h in values["history"]:
             try:
-                mod.eval_fx(h, dict(self.STATS))
+                if isinstance(h, (list, tuple)):
+                    mod.eval_fx(h[0], dict(h[1]))
+                else:
+                    mod.eval_fx(h, dict(self.STATS))
             except Exception:  # noqa: BLE001, S110
                 pass
         got = mod.eval_fx(values["text"], dict(self.STATS))
